@@ -113,6 +113,7 @@ Record trk := mkTrk {
   k_quiet_run : nat;             (* consecutive quiet polls *)
   (* per op *)
   k_op_polls : nat;
+  k_op_blk : list (nat * nat);    (* child polls of this op per waker block (= per group) *)
   k_op_finals : nat;
   k_op_pulled : nat;
   k_op_twakes : nat;
@@ -130,7 +131,7 @@ Record trk := mkTrk {
    k_yielded; k_produced; k_cdrops; k_fin_undropped; k_odrops; k_refused; k_pulled; k_up_ended; k_ups;
    k_scripts; k_handles; k_occ; k_armed; k_dequeued; k_slot_credit; k_pollno; k_last_waker; k_last_pending; k_twake_since;
    k_max_held; k_wakes; k_stale_wakes; k_nblocks; k_polls_total; k_items_total; k_allocs_after; k_quiet_run;
-   k_op_polls; k_op_finals; k_op_pulled; k_op_twakes; k_op_wakes; k_op_newly_armed; k_op_all_pending;
+   k_op_polls; k_op_blk; k_op_finals; k_op_pulled; k_op_twakes; k_op_wakes; k_op_newly_armed; k_op_all_pending;
    k_op_up_last_pend; k_op_up_polled; k_pending_item; k_pending_err>.
 
 Definition trk_init : trk :=
@@ -143,7 +144,7 @@ Definition trk_init : trk :=
      k_last_waker := None; k_last_pending := false; k_twake_since := false;
      k_max_held := 0; k_wakes := 0; k_stale_wakes := 0; k_nblocks := 0; k_polls_total := 0; k_items_total := 0;
      k_allocs_after := 0; k_quiet_run := 0;
-     k_op_polls := 0; k_op_finals := 0; k_op_pulled := 0; k_op_twakes := 0; k_op_wakes := 0;
+     k_op_polls := 0; k_op_blk := []; k_op_finals := 0; k_op_pulled := 0; k_op_twakes := 0; k_op_wakes := 0;
      k_op_newly_armed := false; k_op_all_pending := true;
      k_op_up_last_pend := false; k_op_up_polled := false; k_pending_item := None; k_pending_err := None |}.
 
@@ -211,7 +212,7 @@ Definition op_has_inj (o : op) : bool :=
 
 (** start of an op *)
 Definition trk_begin (k : trk) (o : op) : trk :=
-  let k := k <| k_op_polls := 0 |> <| k_op_finals := 0 |> <| k_op_pulled := 0 |> <| k_op_twakes := 0 |>
+  let k := k <| k_op_polls := 0 |> <| k_op_blk := [] |> <| k_op_finals := 0 |> <| k_op_pulled := 0 |> <| k_op_twakes := 0 |>
              <| k_op_wakes := 0 |> <| k_op_newly_armed := false |> <| k_op_all_pending := true |>
              <| k_op_up_last_pend := false |> <| k_op_up_polled := false |>
              <| k_pending_item := None |> <| k_pending_err := None |> <| k_dequeued := None |> in
@@ -249,6 +250,7 @@ Definition trk_event (k : trk) (o : op) (e : event) : trk :=
   | ECPoll c b s _ =>
       let deq := match k_dequeued k with Some c' => N.eqb c c' | None => false end in
       let k := k <| k_op_polls ::= S |> <| k_polls_total ::= S |>
+                 <| k_op_blk ::= fun l => (b, S (option_default 0 (lookup_nat b l))) :: filter (fun e => negb (Nat.eqb (fst e) b)) l |>
                  <| k_occ ::= fun l => (b, s, c) :: filter (fun e => negb (Nat.eqb (fst (fst e)) b && Nat.eqb (snd (fst e)) s)) l |> in
       let k := if deq then k <| k_dequeued := None |>
                else if is_armed k c then k <| k_armed ::= dropN c |>
@@ -628,8 +630,11 @@ Definition chk_C13_ev (k : trk) (o : op) (e : event) : bool :=
 Definition chk_C13_end (k : trk) (o : op) (evs : list event) : bool :=
   match o with
   | OPoll _ _ =>
-      Nat.leb (k_op_polls k) (B * (1 + k_op_finals k + k_op_pulled k))
-      && (if has_ret is_ret_pending evs && Nat.leb B (k_op_polls k) && Nat.eqb (k_op_finals k + k_op_pulled k) 0
+      (* per group (waker block): at most B child polls per visit; a visit ends with an item, a finished
+         child or a pulled future, so B * (1 + finals + pulled) bounds the polls of one group in one call *)
+      forallb (fun e => Nat.leb (snd e) (B * (1 + k_op_finals k + k_op_pulled k))) (k_op_blk k)
+      && (if has_ret is_ret_pending evs && existsb (fun e => Nat.leb B (snd e)) (k_op_blk k)
+             && Nat.eqb (k_op_finals k + k_op_pulled k) 0
           then negb (Nat.eqb (k_op_twakes k) 0) else true)
       (* nobody held and woken is left waiting beyond the bound *)
       && (let bound := starve_bound k in
